@@ -438,7 +438,7 @@ func runC15(c *core.Ctx) {
 		c.EngineError(err.Error())
 		return
 	}
-	c.SetRule("for every message type of every shipped dictionary: conforming messages (required-only; plus each optional top-level field singly; plus each group with 1 and 2 entries) and every single-defect mutant (each required field removed; undefined tags <5000 and >=5000 at the body boundaries; each typed field with an ill-typed value; each enumerated field with a non-member; each group count +-1 and 0 with entries following; group members swapped; each required member of a group removed from the first and from the last of two entries; every optional header field (enumerated ones with each value) conforming, ill-typed and out of enumeration; header field in body; body field after a trailer field; each field duplicated; each value emptied; unknown MsgType), judged under all 32 combinations of validator settings; under the default and the all-off settings also parsed into a Message object that parsed a long defective message before and judged by a Validator object that has rejected two defective variants of the same message before; session part: a real logged-on FIX.4.2/4.3/4.4 session whose validator the factory builds from the configuration (each validator setting alone at Y and at N) receives a conforming NewOrderSingle and one mutant of each kind, and the transmitted Reject's reason and RefTagID are judged")
+	c.SetRule("for every message type of every shipped dictionary: conforming messages (required-only; plus each optional top-level field singly; plus each group with 1 and 2 entries) and every single-defect mutant (each required field removed; undefined tags <5000 and >=5000 at the body boundaries; each typed field with an ill-typed value; each enumerated field with a non-member; each enumerated multiple-value field with two members and with irregular blanks; an undefined tag 5000; each group count +-1 and 0 with entries following; group members swapped; each required member of a group removed from the first and from the last of two entries; every optional header field (enumerated ones with each value) conforming, ill-typed and out of enumeration; header field in body; body field after a trailer field; each field duplicated; each value emptied; unknown MsgType), judged under all 32 combinations of validator settings; under the default and the all-off settings also parsed into a Message object that parsed a long defective message before and judged by a Validator object that has rejected two defective variants of the same message before; session part: a real logged-on FIX.4.2/4.3/4.4 session whose validator the factory builds from the configuration (each validator setting alone at Y and at N) receives a conforming NewOrderSingle and one mutant of each kind, and the transmitted Reject's reason and RefTagID are judged")
 	c.Assume("expected reason/tag per defect kind follow the FIX session reject reasons; where the pipeline legitimately reports an equally specific rule first the oracle is set-valued (ill-typed value of an enumerated field: 5 or 6; swapped group members: 15,16,1,2 or 13)",
 		"message types whose MsgType is not in the transport dictionary's enumeration are not conforming and are skipped", "XmlDataLen/XmlData and other LENGTH/DATA pairs are not used as optional singles")
 	settingsList := []int{}
@@ -591,6 +591,25 @@ func runC15(c *core.Ctx) {
 				if true {
 					emit("", 0, g.message(m.MsgType, g.body(m, &x, 1)), fmt.Sprintf("optional %d", x.Tag))
 				}
+				// an enumerated multiple-value field: members separated by single blanks are fine, irregular blanks
+				// (only blanks, leading / trailing / doubled blank, a tab) are not values of the enumeration
+				if strings.HasPrefix(d.Type, "MULTIPLE") && len(d.Enums) >= 2 {
+					full := g.message(m.MsgType, g.body(m, &x, 1))
+					for j := range full {
+						if full[j].Tag == x.Tag && j >= hdrLen {
+							a, b := d.Enums[0], d.Enums[1]
+							ok2 := append([]fixscan.Field{}, full...)
+							ok2[j].Value = a + " " + b
+							emit("", 0, ok2, fmt.Sprintf("optional %d two members", x.Tag))
+							for _, bad := range []string{" ", "\t", " " + a, a + " ", a + "  " + b, a + "\t" + b} {
+								bv := append([]fixscan.Field{}, full...)
+								bv[j].Value = bad
+								emit("bad-enum", x.Tag, bv, "multiple-value blanks")
+							}
+							break
+						}
+					}
+				}
 			}
 			// optional header fields: every enumerated one with each of its values (all messages), every other
 			// one once (every 7th message); ill-typed and out-of-enumeration values of each
@@ -679,6 +698,10 @@ func runC15(c *core.Ctx) {
 				}
 				emit("undefined-tag", unknown, insertAt(base, at, fixscan.Field{Tag: unknown, Value: "AB"}), fmt.Sprint(at))
 				emit("undefined-user-tag", 9123, insertAt(base, at, fixscan.Field{Tag: 9123, Value: "AB"}), fmt.Sprint(at))
+				// the first number of the user-defined range and the last one below it
+				if g.ws.FieldsByTag[5000] == nil && g.ts.FieldsByTag[5000] == nil {
+					emit("undefined-user-tag", 5000, insertAt(base, at, fixscan.Field{Tag: 5000, Value: "AB"}), fmt.Sprint(at)+" boundary")
+				}
 			}
 			// an undefined tag carried twice
 			emit("duplicate-undefined", unknown, insertAt(base, len(base), fixscan.Field{Tag: unknown, Value: "AB"}, fixscan.Field{Tag: unknown, Value: "AB"}), "")
